@@ -49,9 +49,11 @@ package regex
 
 //@ func (*Schema).Pattern()
 //@   props C18
-//@   trusted "regex type accessor: compiles once; ASSUMED to touch only the regex schema object itself"
+//@   assumes s != nil && s.file != nil && (!s.compileOnce.once.fired ==> len(s.pattern) == 0)
+//@   assumes s.compileOnce.once.fired && s.compileOnce.err == nil ==> (len(s.pattern) >= 1 && closesAt(s.file.content, len(s.pattern) + 1))
 //@   maypanic
 //@   modifies *s
+//@   ensures normal && result1 == nil ==> result0 == s.pattern
 //@ func (*Schema).Example()
 //@   props C18
 //@   trusted "regex example generator (third-party): ASSUMED to touch only the regex schema object itself"
